@@ -244,6 +244,7 @@ impl Property for C08 {
         };
         let mut find = FindScenario::new(spec, vec![]);
         find.gen_extras(rng, true);
+        find.starts_via_file = rng.chance(1, 10);
         let nout = rng.urange(1, 12);
         find.outcomes = if rng.chance(1, 2) { gen_outcomes(rng, nout, true) } else { vec![] };
         if tight {
